@@ -151,6 +151,7 @@ type caseDef struct {
 	gas      int64 // GasWanted for T (0 = default 20M)
 	maxGas   int64 // block gas limit (0 = default)
 	prefixOK bool  // deliver an OK tx by C first in the block (block-gas crossing cases)
+	cold     bool  // restart both chains after genesis: VM caches are cold when T / its twin run
 }
 
 var r *vk.Run
@@ -294,6 +295,12 @@ func (cd caseDef) run() {
 	label := fmt.Sprintf("%s[%s]gas=%d", cd.name, strings.Join(names, ","), cd.gas)
 
 	X := newChain(cd.maxGas)
+	if cd.cold {
+		label = "cold:" + label
+		if err := X.Restart(); err != nil {
+			r.HarnessError("restart: %v", err)
+		}
+	}
 	X.BeginBlock()
 	if cd.prefixOK {
 		p := X.MakeTx(keys, []std.Msg{chainx.Call(C.Addr, nil, stPath, "Grow", "4")}, chainx.TxOpt{GasWanted: cd.maxGas})
@@ -340,6 +347,11 @@ func (cd caseDef) run() {
 	}
 	// twin W
 	W := newChain(cd.maxGas)
+	if cd.cold {
+		if err := W.Restart(); err != nil {
+			r.HarnessError("restart: %v", err)
+		}
+	}
 	W.BeginBlock()
 	if cd.prefixOK {
 		p := W.MakeTx(keys, []std.Msg{chainx.Call(C.Addr, nil, stPath, "Grow", "4")}, chainx.TxOpt{GasWanted: cd.maxGas})
@@ -476,7 +488,7 @@ func prio(c caseDef) int {
 	switch {
 	case strings.HasPrefix(c.name, "block-gas"):
 		return 0
-	case c.name == "single":
+	case c.name == "single", c.name == "cold":
 		return 1
 	case c.name == "oog-ladder":
 		return 2
@@ -519,6 +531,10 @@ func main() {
 				}
 			}
 		}
+	}
+	// cold-cache cases: a failed tx must not warm an in-memory cache either (restart after genesis on both chains)
+	for _, ms := range [][]int{{3}, {4}, {5}, {7}, {6, 1}, {2, 3}} {
+		cases = append(cases, caseDef{name: "cold", msgs: ms, cold: true})
 	}
 	// out-of-gas ladders: measure, then step GasWanted down
 	ladderMsgs := [][]int{{2}, {9}, {6}, {8}, {0, 2}, {2, 9}}
